@@ -316,6 +316,23 @@ def classify_hang(model_ans, n, q):
 
 # ----------------------------------------------------------------------------- the check
 
+def safe_models(lines):
+    """elkmodel on the trace lines, in chunks; a chunk that does not come back in time is answered
+    `rej why=budget` (inconclusive) line by line rather than failing the whole check"""
+    out = []
+    for i in range(0, len(lines), 25):
+        chunk = lines[i:i + 25]
+        try:
+            out += vlib.run_model(chunk, timeout=240)
+        except RuntimeError:
+            for l in chunk:
+                try:
+                    out += vlib.run_model([l], timeout=60)
+                except RuntimeError:
+                    out.append("rej why=budget (replayer timed out)")
+    return out
+
+
 def run_config(args):
     n, q, reqs = args
     return n, q, prun(reqs, n, q)
@@ -532,7 +549,7 @@ def run(ctx):
     reported = {}
     for (n, q, reqs), (_, _, answers) in zip(jobs, results):
         lines = ["pr\ttrace\t%d\t%d\t%s" % (a.get("pool", n), a.get("queue", q), a.get("events", "")) for a in answers]
-        models = vlib.run_model(lines) if lines else []
+        models = safe_models(lines) if lines else []
         for req, ans, mod in zip(reqs, answers, models):
             if ans.get("pool", n) != n or ans.get("queue", q) != q:
                 raise RuntimeError("worker ran with pool/queue %s/%s instead of %d/%d" % (ans.get("pool"), ans.get("queue"), n, q))
@@ -558,6 +575,11 @@ def run(ctx):
                     detail = j2[2]
                 if not confirmed:
                     ctx.stat("unconfirmed:" + kind)
+                    samples = ctx.extra.setdefault("unconfirmed_samples", [])
+                    if len(samples) < 6:
+                        samples.append({"kind": kind, "pool": n, "queue": q, "id": req["id"], "detail": j[2][:300],
+                                        "outcome": ans.get("outcome"), "err_class": ans.get("err_class"),
+                                        "err_msg": (ans.get("err_msg") or "")[:200], "panic": (ans.get("panic") or "")[:200]})
                     continue
             key = (kind, n, q)
             if reported.get(key, 0) >= 1 or sum(1 for k in reported if k[0] == kind) >= 3:
